@@ -499,6 +499,8 @@ def iter_values(I, st, it, node):
             return [k if o.present.get(k, True) is True else Guarded(o.present[k], k) for k in o.items]
         if isinstance(o, SetObj) and o.items is not None:
             return list(o.items)
+        if isinstance(o, SetObj):
+            return None              # symbolic set: only a library / contract model can iterate it (hook `set_comprehension`)
         if isinstance(o, FrameObj):
             return None
     hook = I.ctx.lib_iter(I, st, it, node)
@@ -629,6 +631,10 @@ def comprehension(I, st, e, kind):
         from .loops import comprehension_as_loop
         return comprehension_as_loop(I, st, e, kind, k, spec, first)
 
+    if seq is None and len(gens) == 1 and not gens[0].ifs and kind == "list" and isinstance(first, Ref) and isinstance(st.obj(first), SetObj):
+        r = I.ctx._hook("set_comprehension", I, st, e, first)
+        if r is not NotImplemented:
+            return r
     if seq is None and len(gens) == 1 and not gens[0].ifs and kind == "list":
         # pure map over a symbolic sequence: functional list, no invariant needed
         n, getter = sym_iter_view(I, st, first)
